@@ -441,6 +441,41 @@ func tStrOp(op string, sort Sort, args ...*Term) *Term {
 			return mkBool(args[0].s <= args[1].s)
 		}
 	}
+	// both operands are character sequences of known length: the predicate is a boolean
+	// combination of character equalities - no string theory needed
+	switch op {
+	case "str.prefixof", "str.suffixof", "str.contains":
+		hay, needle := args[1], args[0]
+		if op == "str.contains" {
+			hay, needle = args[0], args[1]
+		}
+		hs, ok1 := charSeq(hay)
+		ns, ok2 := charSeq(needle)
+		if ok1 && ok2 && len(hs) <= 64 {
+			matchAt := func(i int) *Term {
+				var cs []*Term
+				for j, c := range ns {
+					cs = append(cs, tEq(hs[i+j], c))
+				}
+				return tAnd(cs...)
+			}
+			if len(ns) > len(hs) {
+				return tFalse
+			}
+			switch op {
+			case "str.prefixof":
+				return matchAt(0)
+			case "str.suffixof":
+				return matchAt(len(hs) - len(ns))
+			default:
+				var alts []*Term
+				for i := 0; i+len(ns) <= len(hs); i++ {
+					alts = append(alts, matchAt(i))
+				}
+				return tOr(alts...)
+			}
+		}
+	}
 	return mkApp(op, sort, args...)
 }
 
